@@ -194,7 +194,10 @@ func (b *bitstream) Next() error {
 
 	// Structs with a length code of 1 are a special case. Their length is always encoded
 	// as a VarUInt and their field names appear in ascending symbol ID order.
+	ordered := false
 	if code == bitcodeStruct && length == 1 {
+		// The length is now an actual length, not a length code: 14 and 15 have no special meaning.
+		ordered = true
 		length, _, err = b.readVarUintLen(b.remaining())
 		if err != nil {
 			return err
@@ -242,7 +245,7 @@ func (b *bitstream) Next() error {
 		}
 	}
 
-	if length == 0x0F {
+	if length == 0x0F && !ordered {
 		// This value is actually a null.
 		b.code = code
 		b.null = true
@@ -253,7 +256,7 @@ func (b *bitstream) Next() error {
 	rem := b.remaining()
 
 	// This value's actual length is encoded as a separate varUint.
-	if length == 0x0E {
+	if length == 0x0E && !ordered {
 		var lenghtOfRemaining uint64
 		length, lenghtOfRemaining, err = b.readVarUintLen(rem)
 		if err != nil {
